@@ -87,3 +87,9 @@ CHECKS["C01"] = {
   "text": "Any non-empty mix of Uniswap (either token order / quote), Aave, Squeeth + its pool, Deribit, GMX v1, GMX v2 behind one broker, account quote USD / USDC / WETH, 1/2/5/15/60-minute bars, crashes that liquidate, expiries, deposits on closed hourly bars, LP positions lent to vaults, external prices on and off the pools' own; at the end of every bar wallet, liquidity + pending fees (lent positions skipped in the pool and counted once in the vault), supplies - debts at the bar's indices, vault collateral - short, option cash + positions at mark, GLP + rewards, GM share of pool value are recomputed from the generated rows (exact closed forms / rationals) and compared with AccountStatus. Sampled exploration.",
   "note": "The conversion of a market's value uses the price-frame entry of the market's quote token, as the property states; USD-valued markets convert at 1. Resampled bars use the documented aggregation (first / last / sum) computed independently by integer binning.",
 }
+
+CHECKS["C05"] = {
+  "technique": "Hypothesis generated multi-market universes and programs run through the real Actuator with instance-level wrappers on market status / update, the action callback, strategy hooks, a per-bar trigger and notify; the recorded trace is checked against the per-bar phase grammar, the integer-computed bar grid and the account history",
+  "text": "Per bar: status refresh of every market with the bar's timestamp, then before-bar, trigger, on-bar, optional extra refreshes (this bar's timestamp, written markets only), update() of every market exactly once, after-bar, then notify of exactly the records made in this bar in recording order; bars equal the independently binned grid (1/2/5/15/60 minutes, any start), strictly increasing, once each; every record stamped with its bar (all four phases and update-time liquidations / expiries); accepted recording operations produce a record; Actuator.actions equals the recording sequence; account history has one row per bar with the bar's timestamp and price-frame prices; finalize once at the end. Sampled exploration.",
+  "note": "Observation is by instance-level wrapping (no source hooks). Extra refreshes are allowed where the statement is silent. Rejected or partially executed helpers are not required to produce records.",
+}
